@@ -48,6 +48,7 @@ type ruleJ struct {
 	Count    int    `json:"count"`
 	Ver      int    `json:"ver"`
 	BadOp    bool   `json:"bad_op,omitempty"`
+	Zone     string `json:"zone,omitempty"` // label constraint `zone in [Zone]` (hand-over cases: matched against the real stores)
 }
 type groupJ struct {
 	ID       string `json:"id"`
@@ -92,6 +93,10 @@ type opJ struct {
 	// kind "restart" in a hand-over case: "rc" = this member is (re-)elected: the real RaftCluster of a real server is
 	// stopped and started again on one object; "other" = another member leads meanwhile: its own RuleManager on the same storage
 	Via string `json:"via,omitempty"`
+	// kind "relabel" (hand-over cases, environment: no model step): store 11 comes back with zone = NewZone
+	NewZone string `json:"new_zone,omitempty"`
+	// filled in when the update is issued: versions of the added rules that match no store at that moment
+	Unmatched []int `json:"-"`
 }
 
 // ---------- building PD objects (always fresh: the manager keeps and mutates what it is given) ----------
@@ -100,6 +105,9 @@ func (r ruleJ) pd() *placement.Rule {
 		Role: placement.PeerRoleType(r.Role), Count: r.Count, LocationLabels: []string{fmt.Sprintf("v%d", r.Ver)}}
 	if r.BadOp {
 		pr.LabelConstraints = []placement.LabelConstraint{{Key: "zone", Op: "In", Values: []string{"z1"}}}
+	}
+	if r.Zone != "" {
+		pr.LabelConstraints = append(pr.LabelConstraints, placement.LabelConstraint{Key: "zone", Op: placement.In, Values: []string{r.Zone}})
 	}
 	return pr
 }
@@ -145,6 +153,15 @@ func (b bundleJ) coq() string {
 }
 
 func (o opJ) updateCoq() string {
+	if len(o.Unmatched) > 0 {
+		var xs []string
+		for _, v := range o.Unmatched {
+			xs = append(xs, coqfmt.Z(int64(v)))
+		}
+		in := o
+		in.Unmatched = nil
+		return "(UWithStores " + coqfmt.List(xs) + " " + in.updateCoq() + ")"
+	}
 	switch o.Kind {
 	case "set":
 		return "(USetRule " + o.Rule.coq() + ")"
@@ -182,7 +199,7 @@ func (o opJ) updateCoq() string {
 
 func (o opJ) isUpdate() bool {
 	switch o.Kind {
-	case "restart", "corrupt", "drop", "overlap", "initfail", "reinit":
+	case "restart", "corrupt", "drop", "overlap", "initfail", "reinit", "relabel":
 		return false
 	}
 	return true
@@ -311,6 +328,39 @@ type world struct {
 	prevLive string                 // Coq text of the previous live dump ("" = none)
 	srv      *srv14.Srv             // hand-over cases: the real server whose RaftCluster is stopped and started
 	rcUp     bool
+	zone11   string // hand-over cases: the zone label of store 11 (store 1 has no labels)
+}
+
+// addedRules lists the rules an update adds.
+func (o opJ) addedRules() []ruleJ {
+	var out []ruleJ
+	switch o.Kind {
+	case "set":
+		out = append(out, *o.Rule)
+	case "setrules":
+		out = append(out, o.Rules...)
+	case "batch":
+		for _, b := range o.Batch {
+			if b.Add != nil {
+				out = append(out, *b.Add)
+			}
+		}
+	case "bundle":
+		out = append(out, o.Bundle.Rules...)
+	case "allbundles":
+		for _, b := range o.Bundles {
+			out = append(out, b.Rules...)
+		}
+	}
+	return out
+}
+
+func (w *world) putStore11(zone string) {
+	st := &metapb.Store{Id: 11, Address: "s11", Version: "4.0.0", Labels: []*metapb.StoreLabel{{Key: "zone", Value: zone}}}
+	if err := theServerRC.PutStore(st); err != nil {
+		panic(err)
+	}
+	w.zone11 = zone
 }
 
 // ---------- the layer around the rule manager: a real server's RaftCluster over several leadership terms ----------
@@ -334,6 +384,7 @@ func newWorldServer() *world {
 		st.Base = theServerKV
 	}
 	w := &world{kv: theServerKV, st: theServer.S.GetStorage(), srv: theServer, rcUp: true}
+	w.putStore11("z2")
 	// a fresh start for the case: this member steps down, every rule and group record is removed
 	w.stopRC()
 	ks, _ := w.kv.Dump()
@@ -363,7 +414,7 @@ func (w *world) restartVia(o opJ) (*placement.RuleManager, error) {
 		w.rcUp = true
 		return rc.GetRuleManager(), nil
 	}
-	m := placement.NewRuleManager(w.st, nil) // the other member's manager, on the same storage
+	m := placement.NewRuleManager(w.st, theServerRC) // the other member's manager, on the same storage, with the same stores
 	return m, m.Initialize(o.MaxReplicas, nil)
 }
 
@@ -495,6 +546,13 @@ func (w *world) exec(o opJ) stepOut {
 			w.kv.Plan(o.FaultN, mode)
 		} else {
 			w.kv.Plan(0, kvx13.None)
+		}
+		if w.srv != nil { // the real stores decide which rules a client may add
+			for _, ru := range o.addedRules() {
+				if ru.Zone != "" && ru.Zone != w.zone11 {
+					o.Unmatched = append(o.Unmatched, ru.Ver)
+				}
+			}
 		}
 		err = callUpdate(w.live, o)
 		writes = w.kv.Take()
@@ -1213,13 +1271,45 @@ func genHandover(r *rng.R) caseJ {
 		ops = append(ops, o)
 		wb.exec(opJ{Kind: "restart", MaxReplicas: 3})
 	}
+	zone := "z2"
+	zoneRule := func() { // a rule only store 11 can match (or, 25%, nobody: refused)
+		ru := g.rule(g.someGroup())
+		ru.Start, ru.End, ru.Role, ru.Count, ru.Override = "", "", "learner", 1, false
+		ru.Zone = zone
+		if r.Pct(25) {
+			ru.Zone = "z9"
+		}
+		o := opJ{Kind: "set", Rule: &ru}
+		ops = append(ops, o)
+		if ru.Zone == zone {
+			g.learn(o, wb.exec(o).res == "ROk")
+		}
+	}
+	relabel := func() {
+		zone = []string{"z2", "z3", "z4"}[r.Intn(3)]
+		ops = append(ops, opJ{Kind: "relabel", NewZone: zone})
+	}
 	term("rc")
-	upd(1 + r.Intn(3))
+	upd(1 + r.Intn(2))
+	zoneRule()
 	for k := 0; k < 1+r.Intn(2); k++ {
+		if r.Pct(70) {
+			relabel()
+		}
 		term("other")
-		upd(1 + r.Intn(3))
+		upd(1 + r.Intn(2))
+		if r.Pct(40) {
+			zoneRule()
+		}
 		term("rc")
-		upd(r.Intn(3))
+		upd(r.Intn(2))
+		if r.Pct(50) {
+			zoneRule()
+		}
+		if r.Pct(50) {
+			relabel()
+			term("rc")
+		}
 	}
 	return caseJ{Stream: "handover", Server: true, Ops: ops}
 }
@@ -1339,6 +1429,16 @@ func runCase(R *res.Result, c caseJ, r *rng.R) (caseJ, caseOut) {
 	accepted, rejected, faulted, multi := 0, 0, 0, false
 	var step func(o opJ) stepOut
 	step = func(o opJ) stepOut {
+		if o.Kind == "relabel" { // environment: the store comes back with another label; nothing to observe
+			if w.srv != nil {
+				if !w.rcUp {
+					panic("relabel while the cluster is stopped")
+				}
+				w.putStore11(o.NewZone)
+			}
+			R.Count("op:relabel")
+			return stepOut{}
+		}
 		if o.Kind == "overlap" {
 			outs := w.execOverlap(R, o)
 			for _, out := range outs {
